@@ -344,11 +344,11 @@ fn describe_nb<R: nb_device::radio::PhyRxTx>(r: &Result<nb_device::Response, nb_
     }
 }
 
-type NDev<const P: u8, const G: i8> = nb_device::Device<SimRadio<P, G>, SimRng, 256, 8>;
+type NDev<const P: u8, const G: i8, const N: usize> = nb_device::Device<SimRadio<P, G>, SimRng, N, 8>;
 
-pub struct NbDut<const P: u8, const G: i8> {
+pub struct NbDut<const P: u8, const G: i8, const N: usize> {
     env: EnvRef,
-    dev: NDev<P, G>,
+    dev: NDev<P, G, N>,
 }
 
 #[derive(Clone, Copy, PartialEq, Eq, Debug)]
@@ -360,8 +360,8 @@ enum NbStage {
     InRx2,
 }
 
-impl<const P: u8, const G: i8> NbDut<P, G> {
-    fn build(env: &EnvRef, session: Option<Session>) -> NDev<P, G> {
+impl<const P: u8, const G: i8, const N: usize> NbDut<P, G, N> {
+    fn build(env: &EnvRef, session: Option<Session>) -> NDev<P, G, N> {
         let cfg = env.borrow().cfg.clone();
         let mut dev = nb_device::Device::new(region_config(&cfg), SimRadio::<P, G>::new(env.clone()), SimRng { env: env.clone() });
         if let Some(s) = session {
@@ -448,6 +448,9 @@ impl<const P: u8, const G: i8> NbDut<P, G> {
                     }
                     // otherwise the application retries the event below (the fault is consumed)
                 }
+                Err(nb_device::Error::State(s)) if matches!(stage, NbStage::InRx1 | NbStage::InRx2) && format!("{s:?}") == "BufferTooSmall" => {
+                    // the frame does not fit the device's radio buffer: reported, the window stays open
+                }
                 Err(nb_device::Error::State(s)) => return OpResult::StateErr(format!("{s:?}")),
                 Err(nb_device::Error::Mac(e)) if format!("{e:?}") == "PayloadTooLarge" => return OpResult::TooLarge,
                 Err(nb_device::Error::Mac(_)) => return OpResult::NotJoined,
@@ -521,7 +524,7 @@ impl<const P: u8, const G: i8> NbDut<P, G> {
     }
 }
 
-impl<const P: u8, const G: i8> Dut for NbDut<P, G> {
+impl<const P: u8, const G: i8, const N: usize> Dut for NbDut<P, G, N> {
     fn join(&mut self) -> OpResult {
         let mode = otaa_mode(&self.env.borrow().id);
         let env = self.env.clone();
@@ -605,15 +608,19 @@ pub fn make_dut(env: &EnvRef) -> Box<dyn Dut> {
     macro_rules! mk {
         ($p:literal, $g:literal) => {
             match fe {
-                Frontend::Nb => Box::new(NbDut::<$p, $g>::new(env)) as Box<dyn Dut>,
+                Frontend::Nb => Box::new(NbDut::<$p, $g, 256>::new(env)) as Box<dyn Dut>,
                 _ => Box::new(AsyncDut::<$p, $g, 256>::new(env)) as Box<dyn Dut>,
             }
         };
     }
-    // a device whose radio buffer is smaller than the largest frame (board 0, async front-ends only)
+    // a device whose radio buffer is smaller than the largest frame (board 0)
     let small = env.borrow().cfg.small_buffer;
-    if small && fe != Frontend::Nb {
-        return Box::new(AsyncDut::<14, 0, { crate::script::SMALL_N }>::new(env)) as Box<dyn Dut>;
+    if small {
+        env.borrow_mut().device_buf_cap = crate::script::SMALL_N;
+        return match fe {
+            Frontend::Nb => Box::new(NbDut::<14, 0, { crate::script::SMALL_N }>::new(env)) as Box<dyn Dut>,
+            _ => Box::new(AsyncDut::<14, 0, { crate::script::SMALL_N }>::new(env)) as Box<dyn Dut>,
+        };
     }
     // keep in sync with script::BOARDS
     match board {
